@@ -22,4 +22,12 @@
 #
 from __future__ import annotations
 
+import sys
+
 EXPLORERSCRIPT_EXT = ".exps"
+
+# Compiling and decompiling deeply nested scripts recurses deeply. The limit is raised here, once, when the package is
+# imported - not by one of its modules - so that what a call returns does not depend on which modules were imported
+# before it. A higher limit set by the application is left alone.
+if sys.getrecursionlimit() < 10000:
+    sys.setrecursionlimit(10000)
